@@ -89,7 +89,7 @@ pub fn mul_bound_ok(r: &TwoFloat, x: &TwoFloat, yh: f64, yl: f64, num: u64) -> b
 #[derive(Clone, Copy, PartialEq)]
 pub enum F { Op, Assign }
 
-fn mul_f64_case(f64_left: bool, form: F) {
+pub fn mul_f64_case(f64_left: bool, form: F) {
     let x = any_tf(); let y = any_f64!();
     #[cfg(not(kani))]
     { vassume!(valid(x.hi, x.lo) && in450(x.hi) && in450(y)); }
@@ -103,7 +103,7 @@ fn mul_f64_case(f64_left: bool, form: F) {
     #[cfg(not(kani))]
     { vassert!(mul_bound_ok(&r, &x, y, 0.0, 2), "TwoFloat * f64 within 2 * 2^-106 of the exact product"); }
 }
-fn mul_tf_case(form: F) {
+pub fn mul_tf_case(form: F) {
     let x = any_tf(); let y = any_tf();
     #[cfg(not(kani))]
     { vassume!(valid(x.hi, x.lo) && valid(y.hi, y.lo) && in450(x.hi) && in450(y.hi)); }
@@ -113,7 +113,7 @@ fn mul_tf_case(form: F) {
     #[cfg(not(kani))]
     { vassert!(mul_bound_ok(&r, &x, y.hi, y.lo, 5), "TwoFloat * TwoFloat within 5 * 2^-106 of the exact product"); }
 }
-fn div_f64_case(form: F) {
+pub fn div_f64_case(form: F) {
     let x = any_tf(); let y = any_f64!();
     #[cfg(not(kani))]
     { vassume!(valid(x.hi, x.lo) && in450(x.hi) && x.hi != 0.0 && in450(y) && y != 0.0); }
